@@ -10,6 +10,7 @@ import (
 type Case struct {
 	ch   reflect.Value
 	send bool
+	sel  bool // evaluated for a select statement
 }
 
 // CR describes a receive clause on ch.
@@ -39,6 +40,14 @@ func (s *sched) ready(c Case) bool {
 	if c.send {
 		if closed {
 			return true // the real send panics, as it should
+		}
+		if s.syncCh[c.ch.Pointer()] {
+			// an unbuffered channel made by instrumented code (MakeSync): one value in transit at a time; the
+			// sender then waits in AfterSend until a receiver has taken it
+			if c.sel {
+				s.fatal("unsupported: select with a send on an unbuffered channel under the controlled scheduler")
+			}
+			return c.ch.Len() == 0
 		}
 		if c.ch.Cap() == 0 {
 			s.fatal("unsupported: send on an unbuffered channel under the controlled scheduler")
@@ -83,6 +92,39 @@ func WaitSend(ch interface{}) {
 	s.point("chan send", o, func() bool { return s.ready(c) })
 }
 
+// MakeSync stands for make(chan T) / make(chan T, 0) in instrumented code: mk(n) makes the channel with
+// capacity n.  Under the controlled scheduler an unbuffered channel is represented by a channel with one
+// slot that carries the value in transit: the sender deposits it (WaitSend: when the slot is free) and
+// waits in AfterSend until a receiver has taken it, which is when a send on an unbuffered channel returns.
+// Observable differences: len and cap of such a channel; a select with a send case on it is not supported.
+func MakeSync(mk func(n int) interface{}) interface{} {
+	s := S
+	if s == nil || reaping {
+		return mk(0)
+	}
+	c := mk(1)
+	s.syncCh[reflect.ValueOf(c).Pointer()] = true
+	return c
+}
+
+// AfterSend is placed after a send statement: on an unbuffered channel the sender goes on when the value
+// has been received (or the channel was closed under it).
+func AfterSend(ch interface{}) {
+	s := S
+	if s == nil {
+		return
+	}
+	if reaping {
+		runtime.Goexit()
+	}
+	c := CS(ch)
+	if !c.ch.IsValid() || c.ch.IsNil() || !s.syncCh[c.ch.Pointer()] {
+		return
+	}
+	o := s.chanObj(c.ch)
+	s.point("chan send (waits for the receiver)", o, func() bool { return c.ch.Len() == 0 || s.closed[c.ch.Pointer()] })
+}
+
 // Select waits until one of the cases can proceed (or returns -1 at once when hasDefault and
 // none can), lets the explorer choose among the ready cases and returns the index of the chosen
 // case WITHOUT performing the operation: the instrumented case body starts with the original
@@ -99,6 +141,7 @@ func Select(hasDefault bool, cases ...Case) int {
 	scan := func() bool {
 		rdy = rdy[:0]
 		for i, c := range cases {
+			c.sel = true
 			if s.ready(c) {
 				rdy = append(rdy, i)
 			}
